@@ -16,7 +16,7 @@ Idioms accepted for each test are listed in the tables / functions below, one co
 """
 import re
 from .common import *
-from .C09 import root_of, agg_def, seq_sources, pushes_into, created_empty, fresh_id, eagerise, _whole_defs, _callmap, REF_TRANSPARENT
+from .C09 import root_of, agg_def, construction_of, construction_carry, seq_sources, pushes_into, created_empty, fresh_id, eagerise, _whole_defs, _callmap, REF_TRANSPARENT
 
 VIEW = 'norm'
 
@@ -282,7 +282,36 @@ def xpath(body, op, depth=24):
 
 
 def xexpr(body, op, depth=18):
-    return T.expr(body, unwrap_operand(body, op), depth)
+    """templates.expr with unwrap_operand applied at every operand (not only at the root), so that a value that went
+    through `let (a, b) = helper(..)?;` is seen through wherever it occurs in the tree"""
+    if depth <= 0: return T.expr(body, op, 0)
+    op = unwrap_operand(body, op)
+    if op['k'] not in ('copy', 'move'): return T.expr(body, op, depth)
+    pl = op['pl']; l = pl['l']; fs = fields_of_place(pl)
+    if 1 <= l <= body.argc: return ('place', l, fs)
+    defs = _whole_defs(body, l)
+    if len(defs) != 1 or (l in T._mut_borrowed(body) and body.locals[l] in ('f64', 'u64', 'i64', 'usize', 'bool', 'i32', 'u32')):
+        return ('place', l, fs) if fs else ('local', l)
+    k, bi, d = defs[0]
+    rec = lambda o: xexpr(body, o, depth - 1)
+    if k == 'call':
+        c = _callmap(body)[bi]
+        node = ('call', c.item, c.name, [rec(a) for a in d['args']], bi)
+        return ('proj', node, fs) if fs else node
+    rv = d['rv']; kk = rv['k']
+    if kk == 'use': inner = rec(rv['ops'][0])
+    elif kk == 'ref': inner = rec({'k': 'copy', 'pl': rv['pl']})
+    elif kk == 'bin': inner = ('bin', rv['op'], rec(rv['ops'][0]), rec(rv['ops'][1]))
+    elif kk == 'un': inner = ('un', rv['op'], rec(rv['ops'][0]))
+    elif kk == 'cast': inner = ('cast', rv['to'], rec(rv['ops'][0]))
+    elif kk == 'agg': inner = ('agg', rv['adt'], [rec(o) for o in rv['ops']])
+    elif kk == 'discr': inner = ('discr', rec({'k': 'copy', 'pl': rv['pl']}))
+    else: inner = ('local', l)
+    if fs:
+        if inner[0] == 'place': return ('place', inner[1], inner[2] + fs)
+        if inner[0] == 'proj': return ('proj', inner[1], inner[2] + fs)
+        return ('proj', inner, fs)
+    return inner
 
 
 def range_sig(body, lo):
@@ -416,6 +445,175 @@ def width_tests(ctx, body):
     return nonneg, zero_arms
 
 
+# ---------------------------------------------------------------------------------------------------
+# the numbers of the encoding: n = ceil(log2(w + 1)) bits, coefficients 2^i, the last one capped to w - 2^i + 1
+def strip_casts(e):
+    while True:
+        e = T.strip_wrappers(e)
+        if e[0] == 'cast': e = e[2]; continue
+        if e[0] == 'proj' and e[1][0] == 'bin' and e[1][1].endswith('WithOverflow') and [f for a_, f in e[2]] == ['0']:
+            e = ('bin', e[1][1].replace('WithOverflow', ''), e[1][2], e[1][3]); continue      # checked arithmetic: the value
+        return e
+
+
+def tree_is_width(body, e, depth=3):
+    """expression tree = floor(upper) - ceil(lower), also when it is only a local here (payload of an inlined helper)"""
+    e = strip_casts(e)
+    a = T.arith(e)
+    if a[0] == 'bin' and a[1] == 'Sub' and is_rounded(a[2], 'floor', 'upper') and is_rounded(a[3], 'ceil', 'lower'): return True
+    if depth and e[0] in ('local', 'place') and (e[0] == 'local' or not e[2]) and e[1] >= 0:
+        e2 = xexpr(body, {'k': 'copy', 'pl': {'l': e[1], 'p': []}})
+        if e2 != e: return tree_is_width(body, e2, depth - 1)
+    return False
+
+
+def const_is(e, v):
+    e = strip_casts(e)
+    return e[0] == 'const' and T.f64_const(e[1]) == v
+
+
+def plus_one(body, e, inner):
+    """e = x + 1 (either order) with inner(x)"""
+    e = T.arith(strip_casts(e))
+    return e[0] == 'bin' and e[1] == 'Add' and ((const_is(e[3], 1.0) and inner(e[2])) or (const_is(e[2], 1.0) and inner(e[3])))
+
+
+def is_bit_count(body, e):
+    """n, the number of bits for the widths 0..=w.  Idioms (all equal ceil(log2(w + 1)) for w >= 1):
+         (w + 1.0).log2().ceil() as usize
+         64 - (w as u64).leading_zeros()  /  u64::BITS - ..
+         (w as u64).ilog2() + 1"""
+    W = lambda x: tree_is_width(body, x)
+    e = strip_casts(e)
+    if e[0] == 'call' and e[1] == 'ceil' and 'f64' in e[2]:
+        l2 = strip_casts(e[3][0])
+        if l2[0] == 'call' and l2[1] == 'log2' and plus_one(body, l2[3][0], W): return 'ceil(log2(w + 1))'
+        return None
+    a = T.arith(e)
+    if a[0] == 'bin' and a[1] == 'Sub' and (const_is(a[2], 64.0) or (strip_casts(a[2])[0] == 'const' and 'BITS' in strip_casts(a[2])[1])):
+        lz = strip_casts(a[3])
+        if lz[0] == 'call' and lz[1] == 'leading_zeros' and 'u64' in lz[2] and W(lz[3][0]): return '64 - leading_zeros(w)'
+        return None
+    if plus_one(body, e, lambda x: (lambda y: y[0] == 'call' and y[1] == 'ilog2' and W(y[3][0]))(strip_casts(x))): return 'ilog2(w) + 1'
+    return None
+
+
+def bit_range(body, lo, floops, depth=3):
+    """the `0..n` a loop (transitively, through a vector filled once per iteration of another loop) counts over"""
+    r = root_of(body, lo[0].args[0], SEQ_TRANSPARENT)[0]
+    a = agg_def(body, r, 'ops::Range') if r is not None else None
+    if a is not None or depth == 0: return a
+    leaves = seq_sources(body, lo[0].args[0])
+    if len(leaves) == 1 and leaves[0][0] == 'vec':
+        ps = pushes_into(body, leaves[0][1])
+        if len(ps) == 1:
+            l1 = next((l for l in sorted(floops, key=lambda l: len(l[4])) if ps[0].bb in l[4]), None)
+            if l1 is not None and l1 is not lo: return bit_range(body, l1, floops, depth - 1)
+    return None
+
+
+def def_expr(body, d):
+    k, bi, x = d
+    if k == 'stmt':
+        rv = x['rv']; kk = rv['k']
+        if kk == 'use': return xexpr(body, rv['ops'][0])
+        if kk == 'bin': return ('bin', rv['op'], xexpr(body, rv['ops'][0]), xexpr(body, rv['ops'][1]))
+        if kk == 'un': return ('un', rv['op'], xexpr(body, rv['ops'][0]))
+        if kk == 'cast': return ('cast', rv['to'], xexpr(body, rv['ops'][0]))
+        return T._rv_expr(body, rv)
+    c = _callmap(body)[bi]
+    return ('call', c.item, c.name, [xexpr(body, a_) for a_ in x['args']], bi)
+
+
+def linear_terms(e, sign=1, atom=lambda x: False):
+    """e as a signed sum of atoms: a + (b - c) -> [(+,a), (+,b), (-,c)]; sub-expressions with atom(x) are not split"""
+    e = T.arith(strip_casts(e)) if e[0] != 'bin' else T.arith(e)
+    if atom(e): return [(sign, e)]
+    if e[0] == 'bin' and e[1] in ('Add', 'Sub'):
+        return linear_terms(e[2], sign, atom) + linear_terms(e[3], sign if e[1] == 'Add' else -sign, atom)
+    if e[0] == 'un' and e[1] == 'Neg': return linear_terms(e[2], -sign, atom)
+    return [(sign, e)]
+
+
+def is_power_of_two(body, e, item_bb):
+    """2^i with i the loop item.  Idioms: 2f64.powi(i as i32) | 2f64.powf(i as f64) | (i as f64).exp2() | (1 << i) as f64"""
+    e = strip_casts(e)
+    has_item = lambda x: any(n[0] == 'call' and len(n) > 4 and n[4] == item_bb for n in T.expr_walk(x))
+    if e[0] == 'call' and e[1] in ('powi', 'powf') and 'f64' in e[2] and len(e[3]) == 2: return const_is(e[3][0], 2.0) and has_item(e[3][1])
+    if e[0] == 'call' and e[1] == 'exp2' and e[3]: return has_item(e[3][0])
+    a = T.arith(e)
+    if a[0] == 'bin' and a[1] == 'Shl': return const_is(a[2], 1.0) and has_item(a[3])
+    return False
+
+
+def eval_index_expr(e, item_bb, hi_root, body, i, n, depth=8):
+    """value of a usize expression built from the loop item (-> i), the range's upper end (-> n) and small constants;
+    hi_root = (root local of the upper end, its canonical expression)"""
+    if depth == 0: return None
+    if e[0] != 'const' and canon(body, e, ()) == hi_root[1]: return n
+    e = strip_casts(e)
+    if e[0] == 'const':
+        v = T.f64_const(e[1]); return int(v) if v is not None and v == int(v) else None
+    if e[0] == 'proj' and e[1][0] == 'call' and len(e[1]) > 4 and e[1][4] == item_bb: return i
+    if e[0] == 'call' and len(e) > 4 and e[4] == item_bb: return i          # (the Some payload projection was stripped as a wrapper)
+    if e[0] == 'proj' and e[1][0] == 'bin' and [f for a_, f in e[2]] == ['0']: e = e[1]
+    if e[0] in ('local', 'place') and (e[0] == 'local' or not e[2]):
+        if root_of(body, {'k': 'copy', 'pl': {'l': e[1], 'p': []}})[0] == hi_root[0]: return n
+        return None
+    if e[0] == 'bin':
+        a_ = eval_index_expr(e[2], item_bb, hi_root, body, i, n, depth - 1); b_ = eval_index_expr(e[3], item_bb, hi_root, body, i, n, depth - 1)
+        if a_ is None or b_ is None: return None
+        op = e[1].replace('WithOverflow', '')
+        return {'Add': a_ + b_, 'Sub': a_ - b_, 'Mul': a_ * b_}.get(op)
+    return None
+
+
+def check_coefficients(ctx, R, body, fn, floops, new_call):
+    """every element pushed onto the vector handed to Linear::new is (_, c) with c = 2^i, except in the last iteration
+    (i == n - 1, in any spelling) where it is w - 2^i + 1"""
+    tv = root_of(body, new_call.args[0], SEQ_TRANSPARENT, cross_proj=False)[0]
+    for c in (pushes_into(body, tv) if tv is not None else []):
+        lo = next((l for l in sorted(floops, key=lambda l: len(l[4])) if c.bb in l[4]), None)
+        ta = agg_def(body, root_of(body, c.args[1])[0], 'tuple')
+        rng = bit_range(body, lo, floops) if lo is not None else None
+        if lo is None or ta is None or len(ta[1]['rv']['ops']) != 2 or rng is None:
+            ctx.bad(R + '.coef/values', 'T-BRANCHFX', fn, 'term is not pushed as (id, coefficient) inside a loop over 0..n', body.site(c.bb)); continue
+        item_bb = lo[0].bb; hi_op = rng[1]['rv']['ops'][1]; hi_root = (root_of(body, hi_op)[0], canon(body, xexpr(body, hi_op), ()))
+        cr = root_of(body, ta[1]['rv']['ops'][1])[0]
+        defs = [d for d in _whole_defs(body, cr)] if cr is not None else []
+        kinds = {}
+        for d in defs:
+            terms = linear_terms(def_expr(body, d), 1, lambda x: tree_is_width(body, x, 0))
+            pos = [t for sg, t in terms if sg > 0]; neg = [t for sg, t in terms if sg < 0]
+            if len(terms) == 1 and pos and is_power_of_two(body, pos[0], item_bb): kinds.setdefault('power', []).append(d[1])
+            elif len(pos) == 2 and len(neg) == 1 and is_power_of_two(body, neg[0], item_bb) and \
+                    sorted((tree_is_width(body, t), const_is(t, 1.0)) for t in pos) == [(False, True), (True, False)]: kinds.setdefault('capped', []).append(d[1])
+            else: kinds.setdefault('other', []).append(d[1])
+        okv = set(kinds) == {'power', 'capped'}
+        ctx.check(okv, R + '.coef/values', 'T-BRANCHFX', fn, 'coefficient is not 2^i / w - 2^i + 1 (found %s)' % sorted(kinds), body.site(c.bb))
+        if not okv: continue
+        # which iteration gets the capped one: the decision that separates the two definitions must single out i == n - 1
+        good = False; seen = []
+        for bi, st in body.stmts():
+            rv = st['rv']
+            if bi not in lo[4] or rv['k'] != 'bin' or rv['op'] not in ('Eq', 'Ne', 'Lt', 'Le', 'Gt', 'Ge') or rv.get('ty') == 'f64': continue
+            ea, eb = xexpr(body, rv['ops'][0]), xexpr(body, rv['ops'][1])
+            N_ = 6
+            vals = []
+            for i_ in range(N_):
+                x = eval_index_expr(ea, item_bb, hi_root, body, i_, N_); y = eval_index_expr(eb, item_bb, hi_root, body, i_, N_)
+                if x is None or y is None: vals = None; break
+                vals.append({'Eq': x == y, 'Ne': x != y, 'Lt': x < y, 'Le': x <= y, 'Gt': x > y, 'Ge': x >= y}[rv['op']])
+            if not vals or len(set(vals[:-1])) != 1 or vals[-1] == vals[0]: continue
+            for sb, neg in T.bool_flow(body, st['dst']['l']):
+                tt, ft = T.switch_sides(body, sb, neg)
+                last_t, other_t = (tt, ft) if vals[-1] else (ft, tt)
+                rl = body.reach([last_t], stop={lo[1]}); ro = body.reach([other_t], stop={lo[1]})
+                seen.append('bb%d' % sb)
+                if all(b in rl and b not in ro for b in kinds['capped']) and all(b in ro and b not in rl for b in kinds['power']): good = True
+        ctx.check(good, R + '.coef/last-is-capped', 'T-BRANCHFX', fn, 'the capped coefficient is not chosen exactly for the last bit (i == n - 1); candidate tests: %s' % seen, body.site(c.bb))
+
+
 def is_dv_field_leaf(leaf):
     k, key, _ = leaf
     return k == 'field' and key[0] == 1 and [f for a, f in key[1]] == ['decision_variables']
@@ -468,12 +666,32 @@ def check(ctx):
                 if x.has_field(DV, 'id') and lo[0].dst['l'] in x.locals and 2 in y.params and not y.has_field(DV, 'id'):
                     lookups.append((lo, bi)); break
     ctx.check(bool(lookups), R + '.guards/unknown/lookup', 'T-ERRFLOW', fn, 'no search of self.decision_variables by the given id', body.site())
+    lookup_test = None
     for lo, bi in lookups[:1]:
         t = Test(lo[1], [lo[2]], [lo[3]], 'lookup by id exhausted')
         # the header block holds the `next` call; the switch on its result follows it
         arms = T.option_arms(body, lo[0].dst['l'])
         if arms: t = Test(arms[0][0], [lo[2]], [lo[3]], 'lookup by id exhausted')
         decide(R + '.guards/unknown/none-is-error', [t], '', 'a variable that is not found does not lead to an error before anything else happens', 'T-ERRFLOW')
+        lookup_test = t
+    # "an error, not a panic": `expect` / `unwrap` in this function are justified by the variable having been found
+    # ("At least one decision variable here"), so none of them may be reachable before the lookup has succeeded
+    def may_panic(c):
+        if re.search(r'(Option|Result)::<.*>::(unwrap|expect)$', c.name): return c.item
+        # a closure with overflow-checked arithmetic handed to a combinator: `.map(|id| id + 1)`
+        for a_ in c.args:
+            if a_['k'] in ('copy', 'move') and not a_['pl']['p']:
+                d_ = _whole_defs(body, a_['pl']['l'])
+                if len(d_) == 1 and d_[0][0] == 'stmt' and d_[0][2]['rv']['k'] == 'agg' and d_[0][2]['rv']['adt'].startswith('closure:'):
+                    cb_ = ctx.F.bodies.get(d_[0][2]['rv']['adt'][8:])
+                    if cb_ is not None and (any(cb_.blocks[b_]['term']['k'] == 'assert' for b_ in cb_.live) or any(re.search(r'<&?u64 as std::ops::(Add|Sub|Mul)', x.name) for x in cb_.calls)):
+                        return c.item + '(closure with checked arithmetic)'
+        return None
+    for c in body.calls:
+        what_ = may_panic(c)
+        if what_:
+            ctx.check(lookup_test is not None and protects(body, lookup_test, {c.bb}, need_err=False), R + '.guards/unknown/before-panics', 'T-GUARD', fn,
+                      '`%s` can be reached before the variable lookup has succeeded (panic instead of the not-found error)' % what_, body.site(c.bb))
     # ---- guard 2: integer kind
     kind_adt = ctx.F.adt('v1::decision_variable::Kind')
     INTEGER = None
@@ -576,7 +794,7 @@ def check(ctx):
                 ctx.check(c.item == 'ceil', R + '.round/lower-ceil', 'T-BRANCHFX', fn, 'lower bound is rounded with ' + c.item, body.site(c.bb))
     # ---- C12.cast: f64 -> usize cast feeding the loop bound is protected by finiteness tests
     si = ctx.S.slice_operand(body, nextc.args[0])
-    casts = [(bi, st) for bi, st in body.stmts() if st['rv']['k'] == 'cast' and st['rv']['to'] == 'usize' and st['dst']['l'] in si.locals
+    casts = [(bi, st) for bi, st in body.stmts() if st['rv']['k'] == 'cast' and re.fullmatch(r'[iu](8|16|32|64|128|size)', st['rv']['to']) and st['dst']['l'] in si.locals
              and st['rv']['ops'][0]['k'] in ('copy', 'move') and body.locals[st['rv']['ops'][0]['pl']['l']] == 'f64']
     for bi, st in casts:
         s = ctx.S.slice_operand(body, st['rv']['ops'][0])
@@ -607,29 +825,38 @@ def check(ctx):
     ctx.check(not extra, R + '.only-decision-variables', 'T-ATOMIC', fn, 'writes to self outside decision_variables: %s' % extra, body.site(), writes=sorted(w))
     # ---- pushed variables
     for pc in pushes:
-        a = agg_def(body, root_of(body, pc.args[1])[0], DV)
-        ctx.check(a is not None and a[0] in blocks, R + '.vars/literal', 'T-CARRY', fn, 'the value pushed is not a DecisionVariable built in the same iteration', body.site(pc.bb))
+        # the pushed value: a literal, or `DecisionVariable::default()` / a constructor completed by field assignments and setters
+        a = construction_of(ctx, body, root_of(body, pc.args[1])[0], DV)
+        ctx.check(a is not None and a.bb in blocks, R + '.vars/literal', 'T-CARRY', fn, 'the value pushed is not a DecisionVariable built in the same iteration', body.site(pc.bb))
         if a is None: continue
-        bi, st = a
-        ks = carry_field(ctx, R + '.vars/kind-binary', body, st, 'kind', need_consts=[r'Kind::Binary'], site=body.site(bi))
-        if ks is not None:
-            ctx.check(not ks.has_const(r'Kind::(Integer|Continuous|SemiInteger|SemiContinuous|Unspecified)'), R + '.vars/kind-only-binary', 'T-CONST', fn, 'kind depends on another Kind constant', body.site(bi))
-        bo = agg_field_operand(st, 'bound'); okb = False
-        s = slice_op(ctx, body, bo)
+        bi = a.bb
+        # which Kind variants the field can come from: `Kind::Binary as i32` (a constant) or `set_kind(Kind::Binary)` (a value)
+        ks = a.slice('kind')
+        kinds = set()
+        for c_ in ks.consts: kinds |= set(re.findall(r'decision_variable::Kind::(\w+)', c_))
+        for b2, st2 in body.stmts():
+            m_ = re.search(r'decision_variable::Kind::(\w+)$', st2['rv']['adt']) if st2['rv']['k'] == 'agg' else None
+            if m_ and st2['dst']['l'] in ks.locals: kinds.add(m_.group(1))
+        ctx.check('Binary' in kinds, R + '.vars/kind-binary', 'T-CARRY', fn, 'field `kind` does not depend on Kind::Binary', body.site(bi))
+        ctx.check(kinds <= {'Binary'}, R + '.vars/kind-only-binary', 'T-CONST', fn, 'kind depends on another Kind: %s' % sorted(kinds - {'Binary'}), body.site(bi))
+        okb = False
+        s = a.slice('bound')
         for b2, st2 in find_aggregates(body, BOUND):
             if st2['dst']['l'] in s.locals:
                 vals = [T.f64_const(o['v']) if o['k'] == 'const' else None for o in st2['rv']['ops']]
                 d = dict(zip(st2['rv']['fields'], vals))
                 okb = d.get('lower') == 0.0 and d.get('upper') == 1.0
         ctx.check(okb, R + '.vars/bound-0-1', 'T-CONST', fn, 'bound of the new variables is not Some([0,1])', body.site(bi))
-        idop = agg_field_operand(st, 'id')
-        ids = fresh_id(ctx, R + '.vars/fresh-id', body, idop, 'id of the new binary variable', body.site(bi), fn)
+        idop = a.operand('id')
+        ids = fresh_id(ctx, R + '.vars/fresh-id', body, idop, 'id of the new binary variable', body.site(bi), fn, s=a.slice('id'))
+        if idop is None:
+            ctx.bad(R + '.vars/id-per-bit', 'T-CARRY', fn, 'the id of the pushed variable is not given by one initialiser / assignment', body.site(bi)); continue
         # (expression tree, not the slice: id_base comes from `self`, which the loop itself mutates, so the slice of
         #  anything read from `self` contains the loop)
         ide = xexpr(body, idop)
         ctx.check(any(x[0] == 'call' and len(x) > 4 and x[4] == nextc.bb for x in T.expr_walk(ide)), R + '.vars/id-per-bit', 'T-CARRY', fn,
                   'id is not computed from the bit index', body.site(bi), id_expr=T.expr_str(ide))
-        ss = carry_field(ctx, R + '.vars/subscripts', body, st, 'subscripts', need_params=[2], site=body.site(bi))
+        ss = construction_carry(ctx, R + '.vars/subscripts', a, 'subscripts', need_params=[2])
         if ss is not None:
             ctx.check(nextc in ss.call_objs, R + '.vars/subscripts-bit', 'T-CARRY', fn, 'subscripts do not contain the bit index', body.site(bi))
         # the same id goes into the returned linear expression
@@ -653,11 +880,18 @@ def check(ctx):
                         lt = inner(c.bb)
                         if tid != idc or lt is None or not T.must_pass(body, lt[2], {lt[1]}, {x.bb for x in tp if x.bb in lt[4]}): okp = False
                     precise = okp and 'ITEM<' in idc and is_rounded(xexpr(body, new.args[1]), 'ceil', 'lower')
+                if new is not None and re.search(r'impl v1::Linear>::new(::<.*>)?$', new.name) and len(new.args) == 2:
+                    check_coefficients(ctx, R, body, fn, floops, new)
                 ctx.check(precise, R + '.result/uses-new-ids-and-lower', 'T-CARRY', fn,
                           'the returned Linear is not `Linear::new(terms, ceil(lower))` with every term pushed as (id of the variable of the same bit, _): variable id %s, term ids %s' % (idc, seen_ids), body.site(e))
     loop_must(ctx, R + '.loop/push-every-bit', body, loop, lambda c: c.bb in push_bbs, 'decision_variables.push')
+    # the number of bits
+    br = bit_range(body, loop, floops)
+    how = is_bit_count(body, xexpr(body, br[1]['rv']['ops'][1])) if br is not None else None
+    ctx.check(how is not None, R + '.bits/count', 'T-BRANCHFX', fn, 'the bit loop does not run over 0..ceil(log2(w + 1)) with w = floor(upper) - ceil(lower)%s' %
+              ('' if br is None else ': n = ' + T.expr_str(xexpr(body, br[1]['rv']['ops'][1]))), body.site(), idiom=how)
     # the loop starts at bit 0
     rng = [st for bi, st in body.stmts() if st['rv']['k'] == 'agg' and st['rv']['adt'].endswith('ops::Range') and st['dst']['l'] in si.locals]
     ctx.check(len(rng) >= 1 and all(r['rv']['ops'][0].get('v') == '0_usize' for r in rng), R + '.loop/from-bit-0', 'T-CONST', fn, 'bit loop does not start at 0', body.site())
     ctx.floor('C12.guards', 9); ctx.floor('C12.vars', 8); ctx.floor('C12.cast', 1); ctx.floor('C12.single', 2); ctx.floor('C12.atomic', 2)
-    ctx.floor('C12.loop', 5); ctx.floor('C12.round', 2); ctx.floor('C12.result', 1)
+    ctx.floor('C12.loop', 5); ctx.floor('C12.round', 2); ctx.floor('C12.result', 1); ctx.floor('C12.bits', 1); ctx.floor('C12.coef', 2)
